@@ -38,6 +38,9 @@ type CountingWriter struct {
 	K      int // 1-based index of the faulty call
 	Fired  bool
 	Missed int // bytes that did not reach the buffer
+	// GCEvery > 0: run a garbage collection on every GCEvery-th Write (an encoder that only
+	// remembers ADDRESSES of temporaries is exposed when the collector recycles them mid-encode)
+	GCEvery int
 }
 
 func (w *CountingWriter) Reset() {
@@ -50,6 +53,9 @@ func (w *CountingWriter) Reset() {
 
 func (w *CountingWriter) Write(p []byte) (int, error) {
 	w.Calls++
+	if w.GCEvery > 0 && w.Calls%w.GCEvery == 0 {
+		runtime.GC()
+	}
 	if w.Keep {
 		w.Lens = append(w.Lens, len(p))
 	}
@@ -100,6 +106,9 @@ type MeteredReader struct {
 	// Chunk > 0: a Read delivers at most Chunk bytes (io.Reader allows short reads: a
 	// network stream or a bufio buffer boundary does exactly that)
 	Chunk int
+	// EOFWithData: the Read that delivers the last byte also returns io.EOF (legal for an
+	// io.Reader; iotest.DataErrReader and many network readers behave like this)
+	EOFWithData bool
 }
 
 func NewReader(b []byte) *MeteredReader { return &MeteredReader{B: b} }
@@ -125,6 +134,9 @@ func (r *MeteredReader) Read(p []byte) (int, error) {
 	}
 	n := copy(p, r.B[r.Off:])
 	r.Off += n
+	if r.EOFWithData && r.Off >= len(r.B) {
+		return n, io.EOF
+	}
 	return n, nil
 }
 
